@@ -77,7 +77,7 @@ ASSUMPTIONS = ['"every documented valid combination of array shape, axis and opt
                'min_n_cycles in two dictionaries (kind min_n2): a count in burst_kwargs is only a setting of the amplitude method (the '
                'cycles method never reads burst_kwargs; not generated there). The whole 5 x 5 grid is generated for every entry point '
                'since the repairs 5602cfc / 890cd9b in /repo (two classes had been excluded as PENDING-DEFECT 1, 2 while the '
-               'implementation accepted them: .work/wp/WP15_defect_{1,2}.md)',
+               'implementation accepted them: notes/wp/WP15_defect_{1,2}.md)',
                'kind cross: a negative min_n_cycles given to compute_burst_fraction / compute_burst_features together with a '
                'min_burst_duration (which then takes precedence in the detector) is still a negative min_n_cycles: it must raise '
                'ValueError; invalid start / stop of limit_df and the acceptance of non-default valid option values are not '
@@ -172,7 +172,7 @@ def _no_verdict_value(opt, via, v):
     return (v is None or isinstance(v, str)) and (opt, via, v) in OPT_NO_VERDICT_VALUES
 # (option, entry point) pairs for which unknown values are not generated: none at present (the two classes excluded here
 # as PENDING-DEFECT 1 / 2 — burst method / centre of later entries and `progress` not validated with axis=None,
-# .work/wp/WP10b_defect_{1,2}.md — are repaired in /repo dff010f, 359f26a and generated again)
+# notes/wp/WP10b_defect_{1,2}.md — are repaired in /repo dff010f, 359f26a and generated again)
 OPT_PENDING = set()
 
 
@@ -285,7 +285,7 @@ MIN_N2_QUIET = ('compute_features', 'Bycycle', '2d_none')     # also on a signal
 
 def _min_n2_pending(c):
     """Input classes kept out of the generator until /repo is repaired (COMMON.md rule 5b): none at present.  The two classes
-    excluded here as PENDING-DEFECT 1 / 2 (.work/wp/WP15_defect_{1,2}.md: amplitude method with a valid count in burst_kwargs and a
+    excluded here as PENDING-DEFECT 1 / 2 (notes/wp/WP15_defect_{1,2}.md: amplitude method with a valid count in burst_kwargs and a
     negative one in the thresholds, whose entry was overwritten unseen; a negative count in burst_kwargs through
     compute_burst_features, never validated) are repaired in /repo 5602cfc, 890cd9b and generated and judged again."""
     return None
